@@ -1,9 +1,10 @@
 SPECIFICATION Spec
 CONSTANTS
-  MaxFeats = 2
+  UDeep = 1
+  MaxFeats = 3
   Mode = "update"
   NSources = 1
-  PoolSize = 2
+  PoolSize = 3
   Variants = {0, 1, 2, 3, 4}
 INVARIANT InvUpdateTouchesOnlyProps
 CHECK_DEADLOCK FALSE
